@@ -214,6 +214,11 @@ def check(ctx, base_text, u, bv, name, args, spec, bshape, encoded_base=False):
     if is_exc(r):
         if r.type in ("ValueError", "TypeError"):
             ctx.count("rejected_" + name)
+            # clearing a subcomponent (None) or setting a plain valid value is rejected only when there is no authority to edit
+            plain = (name in ("with_user", "with_password", "with_port") and args[0] is None) or (name == "with_user" and args[0] == "u2") or (name == "with_port" and args[0] == 8080) \
+                or (name == "with_fragment" and args[0] in (None, "")) or (name == "with_query" and args[0] in (None, ""))
+            if plain and (bv.get("raw_host") is not None or name in ("with_fragment", "with_query")):
+                ctx.fail("frame_violation", case, f"{name}{args!r} on a URL with an authority ({base_text!r}) was rejected: {r!r}")
             return
         ctx.fail("unexpected_exception", case, f"{name}{args!r} raised {r!r}")
         return
